@@ -784,6 +784,8 @@ class Explorer:
                 except Exception as e:  # the library's own exceptions are outcomes
                     from .core import exception_origin
 
+                    if exception_origin(e) == "shadow":
+                        raise Inconclusive(f"the library asked a shadow value for something it does not model ({type(e).__name__}: {str(e)[:120]})")
                     if exception_origin(e) == "harness" and not isinstance(e, (AssertionError,)) and type(e).__name__ in ("RecursionError", "ArgumentError", "Z3Exception", "NameError", "AttributeError", "KeyError", "IndexError", "TypeError"):
                         # raised by the harness's own code (innermost frame under /verif, no library frame): not an outcome of
                         # the code under test
